@@ -98,6 +98,31 @@ def rule_R2_one_access(ctx, f, rid="R2", methods=("set", "get", "inc_by", "dec_b
             if any(p in ("compare_exchange", "compare_exchange_weak") for p in kinds):
                 cas_loops.append((cell, m, b))
                 continue
+            if kinds == ["fetch_update"] and m == "inc_by":
+                # std's own CAS loop: the update closure must be bits -> Some(bits(float(bits) + delta)) and the call must be executed once
+                c = ev[0][0]
+                okf = is_inner(c.args[0]) and count_range(b, [c.bb]) == (1, 1)
+                cl_t = c.args[3] if len(c.args) > 3 else None
+                cl = f.closure(cl_t[2]) if (isinstance(cl_t, tuple) and cl_t and cl_t[0] == "agg" and cl_t[1] == "closure") else None
+                if okf and cl is not None:
+                    r = cl.term_local(0)
+                    okf = isinstance(r, tuple) and r[0] == "agg" and r[2].endswith("Option::Some")
+                    if okf:
+                        n = peel(r[3][0], transparent=["f64_to_u64", "f64::to_bits"], refs=False)
+                        okf = isinstance(n, tuple) and n[0] == "binop" and n[1] == "Add"
+                        if okf:
+                            xs = [peel(n[2], transparent=["u64_to_f64", "f64::from_bits"]), peel(n[3], transparent=["u64_to_f64", "f64::from_bits"])]
+                            caps = [peel(x) for x in cl_t[3]]
+                            # one operand is the closure's argument (the current bits), the other the captured delta (= the method's parameter)
+                            isarg = [x == ("param", 2) for x in xs]
+                            iscap = [(x[0] == "field" and peel(x[1]) == ("param", 1) and str(x[2]).isdigit() and int(x[2]) < len(caps) and caps[int(x[2])] == ("param", 2)) if isinstance(x, tuple) and x else False for x in xs]
+                            okf = (isarg[0] and iscap[1]) or (isarg[1] and iscap[0])
+                else:
+                    okf = False
+                ctx.ob(rid, key + "|one-primitive", okf, "%s as fetch_update must apply bits -> Some(bits(float(bits) + delta)) once (std retries the CAS itself)" % key, site=c.span)
+                if okf:
+                    cas_loops.append((cell, m, None))
+                continue
             if ev and not deleg:
                 blocks = [c.bb for c, _ in ev]
                 rng = count_range(b, blocks)
@@ -181,6 +206,8 @@ def rule_R3_cas_loop(ctx, f, cas_loops, rid="R3"):
                   "the failure edge re-reads before retrying")
     ctx.floor(rid, "CAS loops", len(cas_loops), 1)
     for cell, m, b in cas_loops:
+        if b is None:
+            continue   # fetch_update form: checked in R2
         key = "%s::%s" % (cell, m)
         ev = atomic_events(b)
         cas = [c for c, p in ev if p.startswith("compare_exchange")]
@@ -305,6 +332,18 @@ def check_wrapper(ctx, rid, f, path, callee_pat, recv, args, key=None, extra_pur
         return None
     ctx.saw(b)
     key = key or strip_generics(b.path)
+    if callee_pat in TERMINAL_OF:
+        # what counts is the cell operation the chain of thin wrappers ends in, not how the chain is cut into functions:
+        # the Value<P> layer is expanded in place and the body is compared with the terminal operation of the expected callee
+        from pvrules import inline
+        b = inline.expand_body(f, b, lambda pth: bool(re.match(r"^prometheus::value::Value::(inc_by|dec_by|set|get|inc|dec)$", strip_generics(pth))))
+        tpat, targs = TERMINAL_OF[callee_pat]
+        callee_pat = tpat
+        args = [a for a in args] if targs is None else targs
+        want_recv = recv
+        recv = None
+    else:
+        want_recv = None
     eff = effect_calls(b, pure=PURE + list(extra_pure))
     tgt = [c for c in eff if c.matches(callee_pat)]
     other = [c for c in eff if c not in tgt]
@@ -317,6 +356,10 @@ def check_wrapper(ctx, rid, f, path, callee_pat, recv, args, key=None, extra_pur
     c = tgt[0]
     ctx.ob(rid, key + "|every-path-once", count_range(b, [c.bb]) == (1, 1),
            "the call of %s in %s must execute exactly once on every normal path (count range %s)" % (callee_pat, key, count_range(b, [c.bb])), site=c.span)
+    if want_recv is not None:
+        cell = peel(c.args[0])
+        okr = isinstance(cell, tuple) and cell[0] == "field" and cell[2] == "val" and (cell == SELF_FIELD("val") if want_recv == ("param", 1) else want_recv in [peel(x) for x in subterms(cell) if isinstance(x, tuple)] or want_recv in list(subterms(cell)))
+        ctx.ob(rid, key + "|receiver", okr, "%s must operate on the cell `val` of %s (found %s)" % (key, show(want_recv), show(c.args[0])), site=c.span)
     if recv is not None:
         ctx.ob(rid, key + "|receiver", peel(c.args[0]) == recv, "receiver of %s in %s must be %s (found %s)" % (callee_pat, key, show(recv), show(c.args[0])), site=c.span)
     for i, a in enumerate(args):
@@ -333,6 +376,20 @@ def check_wrapper(ctx, rid, f, path, callee_pat, recv, args, key=None, extra_pur
 
 
 def from_i64_is(n):
+    def pred(t):
+        return is_call(t, "Number::from_i64") and const_int(t[2][0]) == n
+    return pred
+
+
+# expected callee of the pinned tree -> (terminal cell operation, its arguments; None = the wrapper's own arguments)
+TERMINAL_OF = {
+    "Value::inc_by": ("Atomic::inc_by", None), "Value::dec_by": ("Atomic::dec_by", None), "Value::set": ("Atomic::set", None), "Value::get": ("Atomic::get", None),
+    "Value::inc": ("Atomic::inc_by", [from_i64_is(1)]), "Value::dec": ("Atomic::dec_by", [from_i64_is(1)]),
+    "Atomic::inc_by": ("Atomic::inc_by", None), "Atomic::dec_by": ("Atomic::dec_by", None), "Atomic::set": ("Atomic::set", None), "Atomic::get": ("Atomic::get", None),
+}
+
+
+def _unused_from_i64_is(n):
     def pred(t):
         return is_call(t, "Number::from_i64") and const_int(t[2][0]) == n
     return pred
